@@ -5617,7 +5617,11 @@ class CodegenCtx:
             else:
                 # if buffer is not freed, ensure strings are made empty
                 if action.into_storage.holds_a(OutputStorageType.STR) and action.into_storage.str_null:
-                    result.add(f"state->c.{action.into_storage.name}[0] = 0;")
+                    if ProgramData.do(ProgramFlag.ALLOCATE_STR_SPACE_DYNAMIC_ON_DEMAND) and action.into_storage.default_value is None and self._is_dynamic(action.into_storage):
+                        # an on-demand buffer may not have been allocated yet (or may have been freed again)
+                        result.add(f"if (state->c.{action.into_storage.name}) state->c.{action.into_storage.name}[0] = 0;")
+                    else:
+                        result.add(f"state->c.{action.into_storage.name}[0] = 0;")
 
             result.add(f"state->{action.into_storage.name}_counter = 0;");
         elif isinstance(action, (AppendTo, AppendCharTo)):
